@@ -1,6 +1,7 @@
-(* Proofs/GcxsGetitem2dP.v — gcxs_getitem_den / gcxs_getitem_wf for 2-d GCXS arrays (CSR: compressed axis 0,
-   CSC: compressed axis 1) and basic indices without None: g[ix] is GCXS.from_coo of the COO result, hence
-   well-formed and with NumPy's dense meaning.  Built on the layout-independent lemmas of GcxsGetitemP.v
+(* Proofs/GcxsGetitem2dP.v — shared machinery of the GCXS getitem theorems (the theorems themselves, for every
+   ndim, are in GcxsGetitemNdP.v): the tail of the n-d code (row-size guard, kernel, assembly), the three result
+   patterns as GCXS.from_coo of the COO result, the post-condition, and the 2-d case lemmas (CSR / CSC) the n-d
+   development grew out of.  Built on the layout-independent lemmas of GcxsGetitemP.v
    (kernels on a from_coo array, the selected elements as a sorted key list, assembly of from_coo). *)
 From Coq Require Import ZArith List Bool Lia ZifyBool Sorting.Sorted Sorting.Permutation.
 From Verif Require Import Py PySlice Shape COO COOP GCXS Convert ConvertL ConvertG NpIndex CooIndex
@@ -647,11 +648,6 @@ Section TwoD.
     rewrite Hsh in E. rewrite Hsh. destruct Ha; subst a; exact E.
   Qed.
 
-  Definition g2 (a : Z) : gcxs V := gcxs_from_coo c [a].
-
-  Lemma g2_shape a : a = 0 \/ a = 1 -> g_shape (g2 a) = [d0; d1].
-  Proof. intros Ha. unfold g2. rewrite (from_coo_gg a Ha). reflexivity. Qed.
-
   Definition post' (sh' : shape) (gsrc : idx -> idx) (r : res (ggres V)) : Prop :=
     match r with
     | Ok (GGArr g') => g_shape g' = sh' /\ g_fill g' = c_fill c /\ gcxs_wfb g' = true
@@ -663,184 +659,11 @@ Section TwoD.
   Lemma post_post' sh' gsrc r : post sh' gsrc r -> post' sh' gsrc r.
   Proof. destruct r as [[v|g']|e]; simpl; tauto. Qed.
 
-  Theorem gcxs_getitem_2d_proof (kf : nat -> nat) a ix :
-    a = 0 \/ a = 1 -> no_zero_step ix = true -> basic ix = true -> no_new ix = true ->
-    match np_index [d0; d1] ix with
-    | Raise e => gcxs_getitem V veqb add kf (g2 a) ix = Raise e /\ e = IndexError
-    | Ok (sh', gsrc) =>
-      match gcxs_getitem V veqb add kf (g2 a) ix with
-      | Ok (GGArr g') => g_shape g' = sh' /\ g_fill g' = c_fill c /\ gcxs_wfb g' = true
-                         /\ forall j, in_range sh' j -> gden g' j = den c (gsrc j)
-      | Ok (GGScalar v) => sh' = [] /\ v = den c (gsrc [])
-      | Raise _ => False
-      end
-    end.
-  Proof.
-    intros Ha Hz Hb Hnn. set (sh := [d0; d1]).
-    assert (Hshb : shape_okb sh = true) by (unfold shape_okb, sh; simpl; lia).
-    assert (Hgi : gcxs_getitem V veqb add kf (g2 a) ix = gcxs_getitem_nd V (g2 a) ix).
-    { unfold gcxs_getitem. rewrite (g2_shape a Ha). reflexivity. }
-    rewrite Hgi. clear Hgi.
-    pose proof (coo_getitem_basic_strong V kf c ix Hc ltac:(rewrite Hsh; exact Hshb) Hz Hb) as HC. rewrite Hsh in HC. fold sh in HC.
-    assert (Hd : d29_clause sh ix = true).
-    { unfold d29_clause. destruct (expand (Z.of_nat (length sh)) ix) as [ex|] eqn:E; [|reflexivity].
-      apply basic_bool_ok. eapply basic_expand; eauto. }
-    destruct (normalize_link sh ix Hshb Hz Hd) as [[ex [E [Hf [Hao [Hn Hr]]]]]|[Hn Hr]].
-    2: { rewrite np_index_eq, Hr. cbn [bind]. unfold gcxs_getitem_nd. rewrite (g2_shape a Ha). fold sh. rewrite Hn. auto. }
-    set (nix := norm_all ex sh) in *.
-    assert (Hwf : nwf nix sh) by (apply norm_all_nwf; auto; eapply expand_nzs; eauto).
-    assert (Hna : no_arr nix = true) by (apply basic_norm_no_arr; eapply basic_expand; eauto).
-    assert (Hno : forallb not_none nix = true).
-    { apply norm_all_not_none; auto; [eapply no_new_expand; eauto|eapply expand_nzs; eauto]. }
-    assert (Hlen : length nix = 2%nat) by (apply (nwf_length nix sh Hwf Hno)).
-    rewrite (np_index_basic sh ix nix Hr Hna) in *.
-    destruct (all_full nix sh) eqn:Haf.
-    - (* the array itself *)
-      assert (Eg : gcxs_getitem_nd V (g2 a) ix = Ok (GGArr (g2 a))).
-      { unfold gcxs_getitem_nd. rewrite (g2_shape a Ha). fold sh. rewrite Hn. cbn [bind]. rewrite Haf. reflexivity. }
-      rewrite Eg. destruct (all_full_true nix sh Haf) as [El Ef].
-      destruct (all_full_id nix sh Hshb Ef El) as [H1 H2]. rewrite H1.
-      assert (Hax : axes_ok (c_shape c) [a]) by (right; apply (Hca2 a Ha)).
-      split; [apply (g2_shape a Ha)|]. split; [unfold g2; rewrite (from_coo_gg a Ha); reflexivity|]. split.
-      + apply (gcxs_from_coo_wf_proof V veqb add c [a] Hc Hok2 Hax).
-      + intros j Hj. rewrite (H2 j Hj). apply (gcxs_from_coo_den_proof V veqb add c [a] j Hc Hok2 Hax).
-    - destruct nix as [|en0 [|en1 [|en2 t]]] eqn:Enix; try discriminate Hlen.
-      assert (Hy : forall P : Prop,
-                 (forall y, yfacts y (out_shape (map to_r [en0; en1])) (src_of (map to_r [en0; en1])) -> P) ->
-                 out_shape (map to_r [en0; en1]) <> [] -> P).
-      { intros P HP Hne. destruct (getitem kf c ix) as [[v|y]|e]; [destruct HC as [HC _]; contradiction|apply (HP y); exact HC|destruct HC]. }
-      unfold g2.
-      destruct en0 as [i0|s0 e0 st0| |l0], en1 as [i1|s1 e1 st1| |l1]; try discriminate Hna; try discriminate Hno.
-      + (* int, int *)
-        rewrite (case_II a ix i0 i1 Ha Hn Hwf). split; reflexivity.
-      + apply Hy; [|discriminate]. intros y Hyf. apply post_post'.
-        destruct Ha; subst a; [apply (case0_IS ix y i0 s1 e1 st1 Hn Haf Hwf Hyf)|apply (case1_IS ix y i0 s1 e1 st1 Hn Haf Hwf Hyf)].
-      + apply Hy; [|discriminate]. intros y Hyf. apply post_post'.
-        destruct Ha; subst a; [apply (case0_SI ix y i1 s0 e0 st0 Hn Haf Hwf Hyf)|apply (case1_SI ix y i1 s0 e0 st0 Hn Haf Hwf Hyf)].
-      + apply Hy; [|discriminate]. intros y Hyf. apply post_post'.
-        destruct Ha; subst a; [apply (case0_SS ix y s0 e0 st0 s1 e1 st1 Hn Haf Hwf Hyf)|apply (case1_SS ix y s0 e0 st0 s1 e1 st1 Hn Haf Hwf Hyf)].
-  Qed.
 End TwoD.
 
-(* ================================================================ the same, for ANY well-formed 2-d GCXS array
-   (every well-formed GCXS is GCXS.from_coo of its COO form: agent-c05's ConvertU.gcxs_image) *)
-From Verif Require Import ConvertU.
-
-Section TwoDAny.
-  Variable V : Type.
-  Variable veqb : V -> V -> bool.
-  Variable add : V -> V -> V.
-
-  Theorem gcxs_getitem_2d_any_proof (kf : nat -> nat) (g : gcxs V) d0 d1 a ix :
-    gcxs_wfb g = true -> g_shape g = [d0; d1] -> g_caxes g = [a] ->
-    no_zero_step ix = true -> basic ix = true -> no_new ix = true ->
-    match np_index [d0; d1] ix with
-    | Raise e => gcxs_getitem V veqb add kf g ix = Raise e /\ e = IndexError
-    | Ok (sh', gsrc) =>
-      match gcxs_getitem V veqb add kf g ix with
-      | Ok (GGArr g') => g_shape g' = sh' /\ g_fill g' = g_fill g /\ gcxs_wfb g' = true
-                         /\ forall j, in_range sh' j -> gden g' j = gden g (gsrc j)
-      | Ok (GGScalar v) => sh' = [] /\ v = gden g (gsrc [])
-      | Raise _ => False
-      end
-    end.
-  Proof.
-    intros Hwf Hsh Hca Hz Hb Hnn.
-    assert (Hs : gcxs_strictb V g = true) by (unfold gcxs_strictb; rewrite Hwf, Hsh; reflexivity).
-    destruct (gcxs_image V g Hs) as [c [Hc [Hcs [Hf [Hok [Hax Heq]]]]]].
-    rewrite Hsh in Hcs, Hok, Hax. rewrite Hca in Hax, Heq.
-    assert (Hd : 0 <= d0 /\ 0 <= d1).
-    { unfold shape_ok in Hok. rewrite Forall_forall in Hok. split; apply Hok; simpl; auto. }
-    assert (Ha : a = 0 \/ a = 1).
-    { destruct Hax as [Hl|Hax]; [simpl in Hl; lia|]. unfold caxes_okb in Hax.
-      apply andb_true_iff in Hax. destruct Hax as [_ Hax]. cbn [forallb length] in Hax.
-      apply andb_true_iff in Hax. destruct Hax as [Hax _]. apply andb_true_iff in Hax. destruct Hax as [H1 H2].
-      apply Z.leb_le in H1. apply Z.ltb_lt in H2. simpl in H2. lia. }
-    assert (Hden : forall j, gden g j = den c j).
-    { intros j. rewrite <- Heq. apply (gcxs_from_coo_den_proof V veqb add c [a] j Hc); rewrite Hcs; [exact Hok|exact Hax]. }
-    destruct Hd as [Hd0 Hd1].
-    pose proof (gcxs_getitem_2d_proof V veqb add c d0 d1 Hc Hcs Hd0 Hd1 kf a ix Ha Hz Hb Hnn) as H.
-    unfold g2 in H. rewrite Heq in H. rewrite Hf in H.
-    destruct (np_index [d0; d1] ix) as [[sh' gsrc]|e]; [|exact H].
-    destruct (gcxs_getitem V veqb add kf g ix) as [[v|g']|e]; [| |exact H].
-    - rewrite Hden. exact H.
-    - destruct H as [H1 [H2 [H3 H4]]]. split; [exact H1|]. split; [exact H2|]. split; [exact H3|].
-      intros j Hj. rewrite Hden. apply H4. exact Hj.
-  Qed.
-
-  (* the two halves under the names of the property list *)
-  Theorem gcxs_getitem_den_2d_proof (kf : nat -> nat) (g : gcxs V) d0 d1 a ix :
-    gcxs_wfb g = true -> g_shape g = [d0; d1] -> g_caxes g = [a] ->
-    no_zero_step ix = true -> basic ix = true -> no_new ix = true ->
-    match np_index [d0; d1] ix with
-    | Raise e => gcxs_getitem V veqb add kf g ix = Raise e /\ e = IndexError
-    | Ok (sh', gsrc) =>
-      match gcxs_getitem V veqb add kf g ix with
-      | Ok (GGArr g') => g_shape g' = sh' /\ g_fill g' = g_fill g
-                         /\ forall j, in_range sh' j -> gden g' j = gden g (gsrc j)
-      | Ok (GGScalar v) => sh' = [] /\ v = gden g (gsrc [])
-      | Raise _ => False
-      end
-    end.
-  Proof.
-    intros Hwf Hsh Hca Hz Hb Hnn.
-    pose proof (gcxs_getitem_2d_any_proof kf g d0 d1 a ix Hwf Hsh Hca Hz Hb Hnn) as H.
-    destruct (np_index [d0; d1] ix) as [[sh' gsrc]|e]; [|exact H].
-    destruct (gcxs_getitem V veqb add kf g ix) as [[v|g']|e]; [exact H| |exact H]. tauto.
-  Qed.
-
-  Theorem gcxs_getitem_wf_2d_proof (kf : nat -> nat) (g : gcxs V) d0 d1 a ix g' :
-    gcxs_wfb g = true -> g_shape g = [d0; d1] -> g_caxes g = [a] ->
-    no_zero_step ix = true -> basic ix = true -> no_new ix = true ->
-    gcxs_getitem V veqb add kf g ix = Ok (GGArr g') -> gcxs_wfb g' = true.
-  Proof.
-    intros Hwf Hsh Hca Hz Hb Hnn Hg.
-    pose proof (gcxs_getitem_2d_any_proof kf g d0 d1 a ix Hwf Hsh Hca Hz Hb Hnn) as H. rewrite Hg in H.
-    destruct (np_index [d0; d1] ix) as [[sh' gsrc]|e]; [tauto|destruct H; discriminate].
-  Qed.
-End TwoDAny.
-
-(* ================================================================ outside the clauses the statements are false of the code *)
+(* ================================================================ small concrete arrays for the examples *)
 Definition rx_c2 : coo Z := mkCOO [2; 3] [[0; 1]; [1; 0]; [1; 2]] [7; 5; 9] 0.
 Definition rx_c3 : coo Z := mkCOO [2; 2; 2] [[0; 0; 1]; [0; 1; 0]; [1; 1; 1]] [7; 5; 9] 0.
 Definition rx_full := ISlice None None None.
 Definition rx_get (g : gcxs Z) (ix : index) : res (ggres Z) := gcxs_getitem Z Z.eqb Z.add (fun _ => 0%nat) g ix.
 
-(* D22 (GCXS): a 0-d array cannot be indexed at all; None together with integers only raises IndexError *)
-Theorem gcxs_getitem_d22_refuted_proof :
-  (let g := mkGCXS [] [] [3] [] [] 0 in
-   gcxs_wfb g = true /\ (exists sh' s, np_index (g_shape g) [] = Ok (sh', s)) /\ rx_get g [] = Raise TypeError)
-  /\
-  (let g := gcxs_from_coo rx_c2 [0] in let ix := [IInt 0; INone; IInt 1] in
-   gcxs_wfb g = true /\ (exists s, np_index (g_shape g) ix = Ok ([1], s)) /\ rx_get g ix = Raise IndexError).
-Proof.
-  split; cbv zeta; (split; [reflexivity|]); (split; [eexists; try eexists; vm_compute; reflexivity|reflexivity]).
-Qed.
-
-(* D27: None with exactly one surviving axis: a 2-d record without indptr *)
-Theorem gcxs_getitem_d27_refuted_proof :
-  let g := gcxs_from_coo rx_c2 [0] in let ix := [INone; IInt 1; rx_full] in
-  gcxs_wfb g = true /\ (exists s, np_index (g_shape g) ix = Ok ([1; 3], s))
-  /\ match rx_get g ix with Ok (GGArr g') => g_shape g' = [1; 3] /\ gcxs_wfb g' = false | _ => False end.
-Proof.
-  cbv zeta. split; [reflexivity|]. split; [eexists; vm_compute; reflexivity|]. vm_compute. split; reflexivity.
-Qed.
-
-(* D28: None after an integer: the new axis is inserted at the wrong place *)
-Theorem gcxs_getitem_d28_refuted_proof :
-  let g := gcxs_from_coo rx_c3 [0] in let ix := [IInt 0; INone; rx_full; rx_full] in
-  gcxs_wfb g = true /\ (exists s, np_index (g_shape g) ix = Ok ([1; 2; 2], s))
-  /\ match rx_get g ix with Ok (GGArr g') => g_shape g' = [2; 1; 2] | _ => False end.
-Proof.
-  cbv zeta. split; [reflexivity|]. split; [eexists; vm_compute; reflexivity|]. vm_compute. reflexivity.
-Qed.
-
-(* the 2-d theorem is not vacuous: CSC, x[::-1, 1:] and x[1] *)
-Example gcxs_getitem_2d_nonvacuous :
-  let g := gcxs_from_coo rx_c2 [1] in
-  gcxs_wfb g = true
-  /\ rx_get g [ISlice None None (Some (-1)); ISlice (Some 1) None None]
-     = Ok (GGArr (mkGCXS [2; 2] [1] [7; 9] [1; 0] [0; 1; 2] 0))
-  /\ rx_get g [IInt 1] = Ok (GGArr (mkGCXS [3] [] [5; 9] [0; 2] [] 0))
-  /\ rx_get g [IInt (-1); IEllipsis; IInt 2] = Ok (GGScalar 9).
-Proof. vm_compute. repeat split; reflexivity. Qed.
